@@ -25,6 +25,7 @@ package main
 //     returns an error or panics is not judged and ends the history; everything else is judged literally.
 
 import (
+	"database/sql"
 	"encoding/json"
 	"fmt"
 	"math/rand"
@@ -577,4 +578,221 @@ func init() {
 			}
 		}
 	}
+}
+
+// ---------------------------------------------------------------------------------------------
+// ties of the round-4 models
+//
+// suite `modes.tie` (correspondence): Model/SoftDeleteMode.lean `filterModeNow` — which ZeroValue the live-row filter of the
+//   query / update / delete path carries for a field whose `zeroValue:` tag is absent / valid / not parseable — against the
+//   statement the real code renders in DryRun for generated tags: the text after the soft-delete column (`IS NULL` | `= ?`)
+//   and the bound value.  `parseOk` (does the time library outside the tree accept the tag) is read off the real query clause value.
+// suite `chain.tie` (correspondence): Model/AssocScope.lean `finisherUnscoped` — what a chain of *DB methods (Model, Where,
+//   Clauses, Session{…} incl. NewDB, Unscoped …) does to Statement.Unscoped, with and without Config.PropagateUnscoped —
+//   against the real handle after the same calls.
+
+var c08TieTags = []string{"", "1970-01-01 00:00:01", "2000-01-01", "'1970-01-01 00:00:01'", "abc", "0", "0000-00-00", "12:30", "2006-01-02T15:04:05Z",
+	"1999-12-31 23:59:59", "2020-02-30", "-1", "1970-01-01 00:00:01 ", "01/02/2006", "now"}
+
+func c08ModeTie(r *Result, rng *rand.Rand, n int) {
+	dbs, _, sqlDB := OpenRec(&gorm.Config{NowFunc: fixedNowFunc})
+	defer sqlDB.Close()
+	dry := dbs.Session(&gorm.Session{DryRun: true})
+	type job struct {
+		tag     string
+		present bool
+		ptr     bool
+		col     string
+		typ     reflect.Type
+	}
+	var jobs []job
+	var ask [][]interface{}
+	for i := 0; i < n; i++ {
+		j := job{tag: c08TieTags[rng.Intn(len(c08TieTags))], present: rng.Intn(5) > 0, ptr: rng.Intn(3) == 0, col: []string{"deleted_at", "gone_at"}[rng.Intn(2)]}
+		tag := "column:" + j.col
+		if j.present {
+			tag += ";zeroValue:" + j.tag
+		}
+		ft := reflect.TypeOf(gorm.DeletedAt{})
+		if j.ptr {
+			ft = reflect.PtrTo(ft)
+		}
+		j.typ = reflect.StructOf([]reflect.StructField{
+			{Name: "ID", Type: reflect.TypeOf(uint(0)), Tag: `gorm:"primaryKey"`},
+			{Name: "V", Type: reflect.TypeOf(0)},
+			{Name: "Gone", Type: ft, Tag: reflect.StructTag(`gorm:"` + tag + `"`)},
+		})
+		// does the time library soft_delete.go asks (jinzhu/now, outside the tree) accept the tag?  Read off the clause value the
+		// real constructor built for the QUERY path; the tie then is: text and bound value of all three paths follow from it
+		parseOk := false
+		stmt := &gorm.Statement{DB: dbs}
+		if err := stmt.Parse(reflect.New(j.typ).Interface()); err == nil && len(stmt.Schema.QueryClauses) == 1 {
+			if qc, ok := stmt.Schema.QueryClauses[0].(gorm.SoftDeleteQueryClause); ok {
+				parseOk = qc.ZeroValue.Valid
+			}
+		}
+		jobs = append(jobs, j)
+		ask = append(ask, []interface{}{"c08.mode", j.present, j.present && parseOk, j.tag})
+	}
+	res, err := AskLean(ask)
+	if err != nil {
+		r.Violate(Violation{Kind: "correspondence", Suite: "modes.tie", Note: err.Error()})
+		return
+	}
+	type pm struct {
+		Valid bool   `json:"valid"`
+		Zero  string `json:"zero"`
+		Text  string `json:"text"`
+	}
+	for i, j := range jobs {
+		var m map[string]pm
+		if json.Unmarshal(res[i], &m) != nil || len(m) != 3 {
+			r.Violate(Violation{Kind: "correspondence", Suite: "modes.tie", Input: j.tag, Observed: string(res[i]), Note: "the Lean driver does not answer c08.mode"})
+			return
+		}
+		for _, path := range []string{"query", "update", "delete"} {
+			mv := reflect.New(j.typ).Interface()
+			var st *gorm.Statement
+			switch path {
+			case "query":
+				st = dry.Table("tie_t").Where("v = ?", 1).Find(reflect.New(reflect.SliceOf(j.typ)).Interface()).Statement
+			case "update":
+				st = dry.Table("tie_t").Model(mv).Where("v = ?", 1).Update("v", 2).Statement
+			default:
+				st = dry.Table("tie_t").Where("v = ?", 1).Delete(mv).Statement
+			}
+			stmtSQL := st.SQL.String()
+			col := "`tie_t`.`" + j.col + "`"
+			k := strings.LastIndex(stmtSQL, col)
+			text, zero := "(no filter)", ""
+			if k >= 0 {
+				text = stmtSQL[k+len(col):]
+				if strings.HasPrefix(text, " = ?") && len(st.Vars) > 0 {
+					zero = fmt.Sprint(st.Vars[len(st.Vars)-1])
+					if ns, ok := st.Vars[len(st.Vars)-1].(sql.NullString); ok { // the bound value is the clause's ZeroValue itself
+						zero = ns.String
+					}
+				}
+			}
+			r.CorrCompared++
+			r.Case("modes.tie", fmt.Sprint(j.present, j.tag, j.ptr, path), j.present)
+			r.H("modes.tie", fmt.Sprintf("%s: tag present=%v → %s", path, j.present, strings.TrimSpace(text)))
+			want := m[path]
+			if text != want.Text || zero != want.Zero {
+				r.Violate(Violation{Kind: "correspondence", Suite: "modes.tie",
+					Input:    map[string]interface{}{"tag_present": j.present, "tag": j.tag, "pointer": j.ptr, "path": path},
+					Observed: map[string]string{"filter": text, "value": zero, "sql": stmtSQL}, Expected: want,
+					Note: "the live-row filter of this path differs from Model/SoftDeleteMode.lean filterModeNow"})
+			}
+		}
+	}
+}
+
+var c08ChainSteps = []string{"Model", "Where", "Not", "Clauses", "Select", "Omit", "Order", "Session{}", "Session{QueryFields: true}", "Session{NewDB: true}",
+	"Session{NewDB: true, SkipHooks: true}", "Session{NewDB: false}", "Session{PrepareStmt: true}", "Unscoped", "Table", "Scopes"}
+
+func c08ApplyStep(h *gorm.DB, step string) *gorm.DB {
+	switch step {
+	case "Model":
+		return h.Model(&DValue{})
+	case "Where":
+		return h.Where("v = ?", 1)
+	case "Not":
+		return h.Not("v = ?", 2)
+	case "Clauses":
+		return h.Clauses(clause.Eq{Column: "v", Value: 3})
+	case "Select":
+		return h.Select("id")
+	case "Omit":
+		return h.Omit("name")
+	case "Order":
+		return h.Order("id")
+	case "Table":
+		return h.Table("d_values")
+	case "Scopes":
+		return h.Scopes(func(d *gorm.DB) *gorm.DB { return d })
+	case "Unscoped":
+		return h.Unscoped()
+	case "Session{}":
+		return h.Session(&gorm.Session{})
+	case "Session{QueryFields: true}":
+		return h.Session(&gorm.Session{QueryFields: true})
+	case "Session{NewDB: true}":
+		return h.Session(&gorm.Session{NewDB: true})
+	case "Session{NewDB: true, SkipHooks: true}":
+		return h.Session(&gorm.Session{NewDB: true, SkipHooks: true})
+	case "Session{NewDB: false}":
+		return h.Session(&gorm.Session{NewDB: false})
+	case "Session{PrepareStmt: true}":
+		return h.Session(&gorm.Session{PrepareStmt: true})
+	}
+	panic(step)
+}
+
+func c08ChainTie(r *Result, rng *rand.Rand, n int) {
+	dbs := map[bool]*gorm.DB{}
+	for _, p := range []bool{false, true} {
+		db, _, sqlDB := OpenRec(&gorm.Config{NowFunc: fixedNowFunc, PropagateUnscoped: p, DryRun: true})
+		defer sqlDB.Close()
+		dbs[p] = db
+	}
+	type job struct {
+		p, u  bool
+		chain []string
+	}
+	var jobs []job
+	var ask [][]interface{}
+	for i := 0; i < n; i++ {
+		j := job{p: rng.Intn(2) == 0, u: rng.Intn(2) == 0}
+		for k, m := 0, rng.Intn(6); k < m; k++ {
+			j.chain = append(j.chain, c08ChainSteps[rng.Intn(len(c08ChainSteps))])
+		}
+		if i < len(c08AssocChains) {
+			j.chain = c08AssocChains[i]
+		}
+		steps := []interface{}{}
+		for _, s := range j.chain {
+			steps = append(steps, s)
+		}
+		jobs = append(jobs, j)
+		ask = append(ask, []interface{}{"c08.chain", j.p, j.u, steps})
+	}
+	res, err := AskLean(ask)
+	if err != nil {
+		r.Violate(Violation{Kind: "correspondence", Suite: "chain.tie", Note: err.Error()})
+		return
+	}
+	for i, j := range jobs {
+		// the root: a chain in progress (clone 0), as `association.DB` — the result of db.Model(&owner) — is
+		h := dbs[j.p].Session(&gorm.Session{}).Model(&DValue{})
+		if j.u {
+			h = h.Unscoped()
+		}
+		for _, s := range j.chain {
+			h = c08ApplyStep(h, s)
+		}
+		// the statement the finisher works on
+		var out []DValue
+		got := h.Find(&out).Statement.Unscoped
+		var want bool
+		r.CorrCompared++
+		r.Case("chain.tie", fmt.Sprint(j.p, j.u, j.chain), len(j.chain) > 1)
+		r.H("chain.tie", fmt.Sprintf("propagate=%v unscoped=%v → %v", j.p, j.u, got))
+		if json.Unmarshal(res[i], &want) != nil || got != want {
+			r.Violate(Violation{Kind: "correspondence", Suite: "chain.tie", Input: map[string]interface{}{"propagate_unscoped": j.p, "root_unscoped": j.u, "chain": j.chain},
+				Observed: got, Expected: string(res[i]), Note: "Statement.Unscoped at the finisher differs from Model/AssocScope.lean finisherUnscoped"})
+		}
+	}
+}
+
+// the chains association.go uses today (Gen/AssocScopeFacts.lean), and the one the NewDB fault would use
+var c08AssocChains = [][]string{{"Model", "Where"}, {"Model", "Clauses"}, {"Session{}", "Model", "Clauses"}, {"Session{}", "Model", "Where"}, {"Where", "Model"},
+	{"Model", "Session{QueryFields: true}", "Clauses"}, {"Session{}", "Model", "Select", "Session{}"}, {"Session{NewDB: true}", "Model", "Where"}}
+
+func init() {
+	register("C08", func(r *Result, rng *rand.Rand, tier string) {
+		n := map[string]int{"quick": 150, "thorough": 2000, "search": 150}[tier]
+		c08ModeTie(r, rng, n)
+		c08ChainTie(r, rng, 4*n)
+	})
 }
